@@ -61,7 +61,9 @@ def make_solver(case_fam, gseed):
         at0 = at0.sub(tissue.random_connected_subset(rng, at0, int(rng.integers(8, 25))))
     nfr = int(rng.integers(3, 5))
     ats = dyn.random_series(rng, at0, nfr, frac=0.5)
-    s = dyn.build(rng, ats, np.cumsum(rng.uniform(0.5, 2.0, nfr)), k=int(rng.integers(1, 5)), relabel=True)
+    # segmentation-like noise on the interior points: the two circle fits then differ materially, as on real data
+    s = dyn.build(rng, ats, np.cumsum(rng.uniform(0.5, 2.0, nfr)), k=int(rng.integers(2, 6)), relabel=True,
+                  jitter=float(rng.choice([0.0, 0.05, 0.15])))
     return fs.ForSys(s.frames, cm=False), nfr
 
 
@@ -204,11 +206,14 @@ def random_ops(rng, nfr, n_internal):
     built = set()
     pbuilt = set()
     L = int(rng.integers(5, 13))
+    # a small palette of option values per sequence, so that a frame is revisited with the SAME value of one option and
+    # another value of a second one (caches / state keyed on a subset of the options)
+    lims = [np.inf, float(rng.uniform(0.62 * np.pi, 0.9 * np.pi))]
     while len(ops) < L:
         t = int(rng.integers(nfr))
         r = rng.random()
         if r < 0.15 or t not in built:
-            lim = [np.inf, float(rng.uniform(0.62 * np.pi, 0.9 * np.pi)), float(rng.uniform(0.6 * np.pi, np.pi)), np.pi][int(rng.integers(4))]
+            lim = lims[int(rng.integers(2))] if rng.random() < 0.8 else [float(rng.uniform(0.6 * np.pi, np.pi)), np.pi][int(rng.integers(2))]
             ops.append({"op": "B", "t": t, "lim": lim, "fit": ["dlite", "taubinSVD"][int(rng.integers(2))],
                         "ign": bool(rng.random() < 0.2)})
             built.add(t)
@@ -289,7 +294,7 @@ def run_case(case):
                 hist[f"op:{op['op']}"] = hist.get(f"op:{op['op']}", 0) + 1
                 if not ok:
                     hist["op-raised"] = hist.get("op-raised", 0) + 1
-                    if not (op["op"] == "S" and op["method"] == "fix_stress" and isinstance(exc, ValueError)):
+                    if not (op["op"] == "S" and op["method"] == "fix_stress" and isinstance(exc, (ValueError, IndexError))):      # known finding F-FIXSTRESS (C05): the branch fails for every input
                         mon.fail("op-raises", "operations on a valid series succeed", op=str(op)[:200], exc=repr(exc)[:160],
                                  history=str([(o["op"], o.get("t"), o.get("method")) for o, _ in log])[:400])
                 touched = {op["t"]} if "t" in op else set(op["interval"])
